@@ -2,7 +2,7 @@
    Mem/Proofs.v instantiated with Go's == (KeyOrder/EqualProofs), the model of derived Equal
    (C02: eqm_spec) and the model of derived Hash (C04: hash_respects_equal). *)
 From Coq Require Import Permutation.
-From Verif Require Import Go.EqualProofs Go.Canon Go.HashProofs Mem.Model Mem.Proofs.
+From Verif Require Import Go.EqualProofs Go.Canon Go.HashProofs Mem.Model Mem.Proofs Mem.HashTotal.
 Open Scope list_scope.
 
 Definition typed_history (ps : list ty) (h : list (list val)) : Prop :=
@@ -174,6 +174,19 @@ Proof.
   exact (run_no_spurious_calls f key_val go_eqeq _ hashr (form_of ps) (args_equal ps) valid
            Hz eq_refl (args_equal_refl ps) (map_key_eq ps) (fun _ => bucket_key_eq ps) (fun _ => HH) h st outs a V R).
 Qed.
+(* the memoised closure never panics and never gets stuck by itself: a run ends normally, or
+   the generator refused Equal/Hash of the key type — for any hash function that respects Equal
+   and does not itself fail *)
+Theorem mem_progress h :
+  hash_respects ps hashr ->
+  (forall b, args_typed ps b = true -> ok_or_unsup (hashr (key_val b))) -> typed_history ps h ->
+  ok_or_unsup (mem_run_with hashr ps f h).
+Proof.
+  intros HH HT V.
+  exact (run_progress f key_val go_eqeq _ hashr (form_of ps) (args_equal ps) valid
+           Hz eq_refl (args_equal_refl ps) (map_key_eq ps) (fun _ => bucket_key_eq ps) (fun _ => HH)
+           h (fun _ => HT) V).
+Qed.
 End Thms.
 
 (* ---------- corollaries for the emitted code (derived Hash) and the collision variant ---------- *)
@@ -221,6 +234,21 @@ Corollary mem_collisions_harmless c ps f h st outs a :
 Proof.
   intros FR V R. split; [exact (mem_observational ps f _ h st outs FR V R)|].
   intros Ha. exact (mem_at_most_once ps f _ h st outs a (const_hash_respects ps c) (respects_returns ps f FR) V R Ha).
+Qed.
+
+(* with derived Hash: the emitted closure itself never panics, whatever the history *)
+Corollary mem_never_panics ps f h :
+  typed_history ps h -> ok_or_unsup (mem_run ps f h).
+Proof.
+  intros V. apply mem_progress; [apply derived_hash_respects| |exact V].
+  intros b Hb. apply hashm_total, key_typed, Hb.
+Qed.
+
+Corollary mem_collision_progress c ps f h :
+  typed_history ps h -> ok_or_unsup (mem_run_consthash c ps f h).
+Proof.
+  intros V. apply mem_progress; [apply const_hash_respects| |exact V].
+  intros b _. right. eexists. reflexivity.
 Qed.
 
 (* the zero-argument form: f is evaluated once, whatever the number of calls *)
